@@ -418,3 +418,30 @@ Proof.
   - apply Z.compare_eq in E. lia.
   - rewrite Z.compare_lt_iff in E. lia.
 Qed.
+
+(* lifting a per-entry description of the label function through flat_map *)
+Lemma lab_at_flat_map_pointwise (f : interval -> list interval) (l : list interval) (c : bool) x x' :
+  (forall i, In i l -> lab_at (f i) x = if c then None else lab_at [i] x') ->
+  lab_at (flat_map f l) x = if c then None else lab_at l x'.
+Proof.
+  induction l as [|i l IH]; intro H; simpl; [destruct c; reflexivity|].
+  rewrite lab_at_app, IH by (intros; apply H; right; assumption).
+  rewrite (H i) by (left; reflexivity). simpl. destruct c; [reflexivity|].
+  destruct (coversb i x'); reflexivity.
+Qed.
+
+Lemma wf_ients_split l i :
+  wf_ients l -> In i l ->
+  exists l1 l2, l = l1 ++ i :: l2 /\ Forall (fun j => before j i) l1 /\ Forall (before i) l2
+                /\ wf_ients l1 /\ wf_ients l2.
+Proof.
+  induction l as [|k l IH]; intros Hw Hi; [destruct Hi|].
+  apply wf_ients_cons in Hw as (Hp & Hb & Hw).
+  destruct Hi as [->|Hi].
+  - exists [], l. repeat split; auto; try constructor. apply Hw. apply Hw.
+  - destruct (IH Hw Hi) as (l1 & l2 & -> & H1 & H2 & W1 & W2).
+    exists (k :: l1), l2. split; [reflexivity|]. split; [|split; [exact H2|split; [|exact W2]]].
+    + constructor; [|exact H1]. rewrite Forall_forall in Hb. apply Hb, in_or_app. right; left; reflexivity.
+    + apply wf_ients_cons. split; [exact Hp|]. split; [|exact W1].
+      rewrite Forall_forall in *. intros j Hj. apply Hb, in_or_app. left; exact Hj.
+Qed.
